@@ -91,7 +91,7 @@ func (e *Exec) callCommon(fr *Frame, st State, cc *ssa.CallCommon, fnv Val, args
 // invoke dispatches an interface method call over the closed world of implementers.
 func (e *Exec) invoke(fr *Frame, st State, cc *ssa.CallCommon, recv Val, args []Val, pos token.Pos) []Outcome {
 	c := e.c
-	tag, word := recv[0], recv[1]
+	tag, word := e.peelIte(st, recv[0]), e.peelIte(st, recv[1])
 	iface := cc.Value.Type().Underlying().(*types.Interface)
 	name := cc.Method.Name()
 	var cands []types.Type
@@ -107,6 +107,15 @@ func (e *Exec) invoke(fr *Frame, st State, cc *ssa.CallCommon, recv Val, args []
 	} else {
 		st = e.oblige(st, fr.fn, "nopanic.nil", "", pos, c.Ne(tag, c.Const(64, 0)))
 		cands = e.P.implementers(iface)
+		if alts := st.tagAlternatives(tag); alts != nil {
+			var keep []types.Type
+			for _, T := range cands {
+				if alts[e.P.tag(T)] {
+					keep = append(keep, T)
+				}
+			}
+			cands = keep
+		}
 		if os.Getenv("KVC_DEBUG") != "" {
 			fmt.Fprintf(os.Stderr, "symbolic invoke %s.%s in %s at %s: tag=%s\n", cc.Value.Type(), name, fr.fn, e.P.pos(pos), c.Show(tag))
 		}
@@ -118,7 +127,7 @@ func (e *Exec) invoke(fr *Frame, st State, cc *ssa.CallCommon, recv Val, args []
 	for _, T := range cands {
 		s := st
 		if !tag.IsConst() {
-			s = s.assume(c.Eq(tag, c.Const(64, e.P.tag(T))))
+			s = s.branch(c.Eq(tag, c.Const(64, e.P.tag(T))))
 			if s.pcFalse() {
 				continue
 			}
@@ -155,9 +164,17 @@ func (e *Exec) callStatic(fr *Frame, st State, fn *ssa.Function, args []Val, bin
 			e.assumed["trusted contract: "+shortFn(fn.String())] = true
 			return e.applyContract(fr, st, fn, ct, args, pos)
 		}
-		if ct != nil && !ct.Inline && !e.forceInline && fn != e.rootFn && ct.usable() {
+		if ct != nil && !ct.Inline && !e.forceInline && fn != e.rootFn && ct.usable() &&
+			(len(ct.Ensures) > 0 || fn.Signature.Results().Len() == 0) {
 			e.viaCt[shortFn(fn.String())] = true
 			return e.applyContract(fr, st, fn, ct, args, pos)
+		}
+		if ct != nil && ct.Pure && fn != e.rootFn && fn.Signature.Results().Len() == 1 && !e.inStack(fr, fn) {
+			// pure function: all paths merged into one outcome (no path multiplication)
+			env := &cenv{e: e, vars: map[string]cval{}, cur: st, old: st, pkg: e.pkgOf(fn), brkOld: st.brk, facts: new([]*Term)}
+			r := env.pureCall(fn, args)
+			st = e.useFacts(st, env)
+			return []Outcome{{st: st, ret: r.v}}
 		}
 		if e.inStack(fr, fn) {
 			var names []string
@@ -272,12 +289,12 @@ func (e *Exec) appendOp(fr *Frame, st State, cc *ssa.CallCommon, args []Val, pos
 	fits := c.Ule(newLen, s[2])
 	var outs []Outcome
 	// in place
-	if s1 := st.assume(fits); !fits.IsFalse() && !s1.pcFalse() {
+	if s1 := st.branch(fits); !fits.IsFalse() && !s1.pcFalse() {
 		s1 = e.copyElems(s1, ET, c.Add(s[0], c.Mul(s[1], c.Const(64, es))), tBase, tLen)
 		outs = append(outs, Outcome{st: s1, ret: Val{s[0], newLen, s[2]}})
 	}
 	// reallocate
-	if s2 := st.assume(c.Not(fits)); !fits.IsTrue() && !s2.pcFalse() {
+	if s2 := st.branch(c.Not(fits)); !fits.IsTrue() && !s2.pcFalse() {
 		ncap := c.Fresh("appcap", BV(64))
 		s2 = s2.assume(c.Ule(newLen, ncap))
 		s2 = s2.assume(c.Ule(ncap, c.Const(64, 1<<41)))
@@ -318,6 +335,18 @@ func (e *Exec) freshString(st State, what string) (State, Val) {
 func (e *Exec) external(fr *Frame, st State, fn *ssa.Function, args []Val, pos token.Pos) []Outcome {
 	c := e.c
 	name := fn.String()
+	if e.initMode && (fn.Name() == "init" || strings.HasSuffix(name, ".init")) {
+		return []Outcome{{st: st}}
+	}
+	if e.initMode {
+		// initialisers of variables we do not track (encoders, decoders, ...): opaque results
+		res := fn.Signature.Results()
+		var ret Val
+		for i := 0; i < res.Len(); i++ {
+			ret = append(ret, e.freshVal(res.At(i).Type(), "init")...)
+		}
+		return []Outcome{{st: st, ret: ret}}
+	}
 	e.assumed["assumed contract: "+name] = true
 	switch name {
 	case "errors.New", "fmt.Errorf":
@@ -336,13 +365,17 @@ func (e *Exec) external(fr *Frame, st State, fn *ssa.Function, args []Val, pos t
 		return []Outcome{{st: st, ret: Val{s[0], n, s[2]}}}
 	case "(*golang.org/x/text/encoding.Decoder).Bytes", "(*golang.org/x/text/encoding.Encoder).Bytes":
 		// fresh slice or error; contents unconstrained here (refined by charmap contract)
-		n := c.Fresh("enc.len", BV(64))
+		// deterministic functions of their argument: the symbols keep their names in the
+		// second run of a relational check (prefix in.$ext)
+		n := c.Fresh("in.$ext.enc.len", BV(64))
 		st = st.assume(c.Ule(n, c.Const(64, 1<<30)))
 		s2, a := e.alloc(st, n, "enc")
-		arr := c.Fresh("enc.data", Sort{KArr, 8})
+		arr := c.Fresh("in.$ext.enc.data", Sort{KArr, 8})
 		s2.h[0] = s2.h[0].push(HeapLayer{kind: lHavoc, addr: a, n: n, arr: arr})
+		okc := c.Fresh("in.$ext.enc.ok", Bool)
+		s2 = s2.branch(okc)
 		okOut := Outcome{st: s2, ret: Val{a, n, n, c.Const(64, 0), c.Const(64, 0)}}
-		s3, ev := e.freshError(st, "enc")
+		s3, ev := e.freshError(st.branch(c.Not(okc)), "enc")
 		errOut := Outcome{st: s3, ret: Val{c.Const(64, 0), c.Const(64, 0), c.Const(64, 0), ev[0], ev[1]}}
 		return []Outcome{okOut, errOut}
 	case "math.Float32bits", "math.Float32frombits", "math.Float64bits", "math.Float64frombits":
@@ -371,3 +404,19 @@ func (e *Exec) goStmt(fr *Frame, st State, g *ssa.Go, fnv Val, args []Val) []Out
 }
 
 var _ = fmt.Sprintf
+
+// peelIte resolves ite terms whose condition is decided by the path condition.
+func (e *Exec) peelIte(st State, t *Term) *Term {
+	for t.Op == OIte {
+		v, ok := e.knownCond(st, t.Args[0])
+		if !ok {
+			break
+		}
+		if v {
+			t = t.Args[1]
+		} else {
+			t = t.Args[2]
+		}
+	}
+	return t
+}
